@@ -16,16 +16,114 @@ from .model import Repo
 from .report import Check
 
 
+HERE = os.path.dirname(os.path.dirname(os.path.abspath(__file__)))
+SEEDED = os.path.join(HERE, "seeded")
+
+
 def _load(pid):
     try:
         mod = importlib.import_module("sa.mutants.%s" % pid.lower())
+        out = list(mod.MUTANTS)
     except ImportError:
-        return []
-    return list(mod.MUTANTS)
+        out = []
+    # independently seeded changes (section 12 of DESIGN.md): every confirmed breaking seed of this property must be reported,
+    # every behaviour-preserving twin must leave the property's check silent
+    for x in ("A", "B"):
+        d = os.path.join(SEEDED, "%s-%s" % (pid.upper(), x), "patch.diff")
+        if os.path.isfile(d):
+            out.append({"id": "seed-%s-%s" % (pid.upper(), x), "rule": None, "diff": d, "tier": _seed_tier(os.path.dirname(d)), "what": "independently seeded breaking change (seeded/%s-%s)" % (pid.upper(), x)})
+    for k in (1, 2, 3, 4):
+        d = os.path.join(SEEDED, "twins", "%s-T%d.diff" % (pid.upper(), k))
+        if os.path.isfile(d):
+            out.append({"id": "twin-%s-T%d" % (pid.upper(), k), "kind": "twin", "diff": d, "what": "independently written behaviour-preserving edit (seeded/twins)"})
+    return out
+
+
+def _seed_tier(d):
+    try:
+        import json
+        return json.load(open(os.path.join(d, "meta.json"))).get("checks", {}).get("tier_needed", "quick")
+    except (OSError, ValueError):
+        return "quick"
+
+
+def apply_diff(root, path):
+    """Apply a unified diff to the files of ``root`` in memory.  Returns {rel: new text} or None when it does not apply exactly."""
+    try:
+        with open(path, encoding="utf-8", errors="replace") as fh:
+            lines = fh.read().split("\n")
+    except OSError:
+        return None
+    overlay = {}
+    i = 0
+    cur, src, out, pos = None, None, None, 0
+
+    def flush():
+        if cur is not None:
+            out.extend(src[pos:])
+            overlay[cur] = "\n".join(out)
+    while i < len(lines):
+        ln = lines[i]
+        if ln.startswith("--- "):
+            flush()
+            cur = None
+            old = ln[4:].split("\t")[0].strip()
+            new = lines[i + 1][4:].split("\t")[0].strip() if i + 1 < len(lines) and lines[i + 1].startswith("+++ ") else None
+            if new is None or old == "/dev/null" or new == "/dev/null":
+                return None
+            rel = new[2:] if new.startswith("b/") else new
+            try:
+                with open(os.path.join(root, rel), "rb") as fh:
+                    src = fh.read().decode("utf-8", "replace").split("\n")
+            except OSError:
+                return None
+            cur, out, pos = rel, [], 0
+            i += 2
+            continue
+        if ln.startswith("@@") and cur is not None:
+            try:
+                a = ln.split(" ")[1]
+                start = int(a[1:].split(",")[0])
+            except (IndexError, ValueError):
+                return None
+            start = max(start - 1, 0)
+            if start < pos:
+                return None
+            out.extend(src[pos:start])
+            pos = start
+            i += 1
+            while i < len(lines) and not lines[i].startswith("@@") and not lines[i].startswith("--- ") and not lines[i].startswith("diff "):
+                h = lines[i]
+                if h.startswith("\\"):
+                    i += 1
+                    continue
+                if h == "" and i == len(lines) - 1:
+                    break
+                tag, txt = (h[0], h[1:]) if h else (" ", "")
+                if tag == " ":
+                    if pos >= len(src) or src[pos] != txt:
+                        return None
+                    out.append(txt)
+                    pos += 1
+                elif tag == "-":
+                    if pos >= len(src) or src[pos] != txt:
+                        return None
+                    pos += 1
+                elif tag == "+":
+                    out.append(txt)
+                else:
+                    break
+                i += 1
+            continue
+        i += 1
+    flush()
+    return overlay or None
 
 
 def apply_mutant(root, mu):
     """Return overlay dict or None when the anchor text is absent/ambiguous."""
+    if mu.get("diff"):
+        return apply_diff(root, mu["diff"])
     overlay = {}
     edits = mu.get("edits") or [mu]
     for e in edits:
